@@ -121,7 +121,8 @@ def body(run):
                     cause = 'other'
             run.add_violation('comparison statistics depend on block size: ' + d,
                               dict(geom=g.describe(), proc_crs=proc, max_block_mem=mbm, blocks=nblk, one=one['stats'], many=many['stats']),
-                              signature=dict(kind='compare-blocks', forced_fine_grid=bool(forced), cause=cause))
+                              signature=dict(kind='compare-blocks', forced_fine_grid=bool(forced), cause=cause,
+                                             n_differs=any(one['stats'][b_]['n'] != many['stats'][b_]['n'] for b_ in one['stats'])))
     run.cov['rule'] = ('real comparisons of file pairs whose processing-grid pixel pairs are known exactly (same grid; source 2x / 4x finer, aligned, '
                        'integer data so that float32 sums are exact), 1..3 bands with band selections, 1..20 blocks, 1..4 threads: N exact, r2 / RMSE^2 / '
                        'rRMSE^2 to 1e-8 against the Gallina model and against an exact-fraction oracle, and against the single-block run; plus '
